@@ -5,7 +5,9 @@
    through a `?`, where `report.stop_at_errors()?` stands, where `output` is stored, where the driver formats / prints /
    writes.  The phases themselves (parser, resolver, ...) are ABSTRACT: the theorems hold for every instantiation `sem`
    that satisfies `obligations` (Spec/Loud.v): L1..L13 "a phase that returns Err leaves an error in the report",
-   Q1..Q3 "the three phases after the last stop_at_errors push nothing when they return Ok", "defs::init cannot fail".
+   Q1..Q3 "the three phases after the last stop_at_errors push nothing when they return Ok", "defs::init cannot fail",
+   T1 "a phase that returns Ok has pushed errors only as top-level Errors" (stop_at_errors reads top-level kinds only).
+   `has_error r` = some top-level message of r carries an error at any depth; the initial report must be `well_topped`.
    TopShape.phase_obligations lists them with the file/function each was checked against by reading.  They are NOT proved
    of the Rust code; the streams of tools/props/c03.py look for exactly their failures on every run.
    Crashes (panic inside a phase, stack overflow, OOM, non-termination) cannot be exhibited by this model: observed only.
@@ -17,20 +19,21 @@ Import ListNotations.
 (* ---- asm::assemble, for every shape that passes the computable check shape_ok and every phases satisfying the obligations *)
 (* success is clean: output delivered => no error in the report, error flag not set, and the fields the driver unwraps are Some *)
 Theorem C03_ok_clean : forall St sem loop_done, obligations St sem -> forall sh, shape_ok sh = true ->
-  forall fuel s0 r0 a r, assemble St sem loop_done sh fuel s0 r0 = AReturn a r -> r_output a = true ->
+  forall fuel s0 r0 a r, well_topped r0 = true -> assemble St sem loop_done sh fuel s0 r0 = AReturn a r -> r_output a = true ->
   has_error r = false /\ r_error a = false /\ r_decls a = true /\ r_defs a = true /\ r_iter a = true.
 Proof. exact ok_clean. Qed.
 
 (* failure is loud: no output => at least one error in the report (whatever the report held at the start) and the error flag set;
    the code's own assert!(report.has_errors()) is hereby a consequence, not a run-time hope *)
 Theorem C03_err_loud : forall St sem loop_done, obligations St sem -> forall sh, shape_ok sh = true ->
-  forall fuel s0 r0 a r, assemble St sem loop_done sh fuel s0 r0 = AReturn a r -> r_output a = false ->
+  forall fuel s0 r0 a r, well_topped r0 = true -> assemble St sem loop_done sh fuel s0 r0 = AReturn a r -> r_output a = false ->
   has_error r = true /\ r_error a = true.
 Proof. exact err_loud. Qed.
 
 (* neither the assert! nor an unwrap of a field that is still None can fire *)
 Theorem C03_assemble_glue_never_panics : forall St sem loop_done, obligations St sem -> forall sh, shape_ok sh = true ->
-  forall fuel s0 r0, assemble St sem loop_done sh fuel s0 r0 <> APanicUnwrap /\ assemble St sem loop_done sh fuel s0 r0 <> APanicAssert.
+  forall fuel s0 r0, well_topped r0 = true ->
+  assemble St sem loop_done sh fuel s0 r0 <> APanicUnwrap /\ assemble St sem loop_done sh fuel s0 r0 <> APanicAssert.
 Proof. exact no_panic. Qed.
 
 (* exactly one of the two ends *)
@@ -76,6 +79,17 @@ Theorem C03_shape_refuted_pinned :
   (exists sem, obligations unit sem /\ exists a r, assemble unit sem (fun _ => true) pinned_shape 1 tt [] = AReturn a r /\
       r_output a = true /\ r_error a = true /\ has_error r = true).
 Proof. exact (conj pinned_shape_not_ok pinned_refuted). Qed.
+
+(* `has_error` is an error at ANY depth of a top-level message (what is printed as `error:`); Report::stop_at_errors reads the kind
+   of the top-level messages only, and an error reported while the outermost open parent is a Note (eval_asm.rs, `match attempted`)
+   is stored as a top-level Note.  Hence obligation T1 (top_on_continue): a phase satisfying L, Q and `infallible` but reporting such
+   an error AND returning Ok gets the output delivered together with a printed error, on the repaired shape *)
+Theorem C03_note_wrapped_needs_top_on_continue :
+  loud_on_err unit sem_note_wrapped /\ quiet_on_ok unit sem_note_wrapped /\ infallible_ok unit sem_note_wrapped /\
+  ~ top_on_continue unit sem_note_wrapped /\
+  exists a r, assemble unit sem_note_wrapped (fun _ => true) modelled_shape 1 tt [] = AReturn a r /\
+              r_output a = true /\ r_error a = false /\ has_error r = true /\ has_top_error r = false.
+Proof. exact note_wrapped_escapes. Qed.
 
 (* a driver that drops the `?` after write_bytes would report an error and still return Ok *)
 Theorem C03_driver_without_try_refuted :
